@@ -441,6 +441,11 @@ impl fmt::Debug for Z {
         f.write_str("Z")
     }
 }
+impl fmt::Display for Z {
+    fn fmt(&self, f: &mut fmt::Formatter<'_>) -> fmt::Result {
+        f.write_str("z")
+    }
+}
 pub fn z_set_eq(answer: bool) {
     Z_EQ_ANSWER.with(|c| c.set(answer));
 }
@@ -564,5 +569,96 @@ impl fmt::Display for HVal {
     fn fmt(&self, f: &mut fmt::Formatter<'_>) -> fmt::Result {
         fault::tick(Cb::Fmt);
         write!(f, "v{}", self.heap[0])
+    }
+}
+
+// ---------------------------------------------------------------------------------------------
+// key / value WITHOUT drop glue but with an observable Clone: every `clone()` is counted and
+// stamps a fresh serial number into the copy, so a container that duplicates such elements
+// bit-for-bit instead of calling `Clone::clone` is found out.
+
+static ND_SERIAL: G<u64> = G::new(1);
+static ND_KCLONES: G<u64> = G::new(0);
+static ND_VCLONES: G<u64> = G::new(0);
+fn nd_next() -> u64 {
+    ND_SERIAL.with(|c| {
+        let v = c.get();
+        c.set(v + 1);
+        v
+    })
+}
+/// (key clones, value clones) so far
+pub fn nd_clone_counts() -> (u64, u64) {
+    (ND_KCLONES.with(Cell::get), ND_VCLONES.with(Cell::get))
+}
+
+pub struct NdKey {
+    pub class: u32,
+    pub tag: u32,
+    pub serial: u64,
+}
+impl NdKey {
+    pub fn new(class: u32, tag: u32) -> Self {
+        NdKey { class, tag, serial: nd_next() }
+    }
+}
+impl Clone for NdKey {
+    fn clone(&self) -> Self {
+        ND_KCLONES.with(|c| c.set(c.get() + 1));
+        NdKey { class: self.class, tag: self.tag, serial: nd_next() }
+    }
+}
+impl PartialEq for NdKey {
+    fn eq(&self, o: &Self) -> bool {
+        self.class == o.class
+    }
+}
+impl Eq for NdKey {}
+impl Borrow<Class> for NdKey {
+    fn borrow(&self) -> &Class {
+        // SAFETY: Class is repr(transparent) over u32
+        unsafe { &*(&self.class as *const u32).cast::<Class>() }
+    }
+}
+impl fmt::Debug for NdKey {
+    fn fmt(&self, f: &mut fmt::Formatter<'_>) -> fmt::Result {
+        write!(f, "K{}#{}", self.class, self.tag)
+    }
+}
+impl fmt::Display for NdKey {
+    fn fmt(&self, f: &mut fmt::Formatter<'_>) -> fmt::Result {
+        write!(f, "k{}.{}", self.class, self.tag)
+    }
+}
+
+#[derive(Default)]
+pub struct NdVal {
+    pub payload: u32,
+    pub serial: u64,
+}
+impl NdVal {
+    pub fn new(payload: u32) -> Self {
+        NdVal { payload, serial: nd_next() }
+    }
+}
+impl Clone for NdVal {
+    fn clone(&self) -> Self {
+        ND_VCLONES.with(|c| c.set(c.get() + 1));
+        NdVal { payload: self.payload, serial: nd_next() }
+    }
+}
+impl PartialEq for NdVal {
+    fn eq(&self, o: &Self) -> bool {
+        self.payload == o.payload
+    }
+}
+impl fmt::Debug for NdVal {
+    fn fmt(&self, f: &mut fmt::Formatter<'_>) -> fmt::Result {
+        write!(f, "V{}", self.payload)
+    }
+}
+impl fmt::Display for NdVal {
+    fn fmt(&self, f: &mut fmt::Formatter<'_>) -> fmt::Result {
+        write!(f, "v{}", self.payload)
     }
 }
